@@ -165,6 +165,16 @@ def get_encoding_mode() -> Literal["wide", "narrow", "utf8"]:
     return str_util.get_byte_encoding()
 
 
+def _replace_keep_width(exc: UnicodeError) -> tuple[str, int]:
+    """Replace unencodable characters by as many '?' as they occupy screen columns."""
+    if not isinstance(exc, UnicodeEncodeError):
+        raise exc
+    return "".join("?" * str_util.get_char_width(ch) for ch in exc.object[exc.start : exc.end]), exc.end
+
+
+codecs.register_error("urwid_replace", _replace_keep_width)
+
+
 def apply_target_encoding(s: str | bytes) -> tuple[bytes, list[tuple[Literal["U", "0"] | None, int]]]:
     """
     Return (encoded byte string, character set rle).
@@ -178,7 +188,7 @@ def apply_target_encoding(s: str | bytes) -> tuple[bytes, list[tuple[Literal["U"
 
     if isinstance(s, str):
         s = s.replace(escape.SI + escape.SO, "")  # remove redundant shifts
-        s = codecs.encode(s, _target_encoding, "replace")
+        s = codecs.encode(s, _target_encoding, "urwid_replace")
 
     if not isinstance(s, bytes):
         raise TypeError(s)
